@@ -29,6 +29,10 @@ def pattern(text):
         # a block wrapping a single expression statement: unwrap
         if r["k"] == "Block" and len(r["stmts"]) == 1 and r["stmts"][0]["k"] == "ExprStmt":
             r = r["stmts"][0]["e"]
+        elif r["k"] == "Block" and len(r["stmts"]) == 1 and r["stmts"][0]["k"] == "Local":
+            r = r["stmts"][0]
+        if r["k"] == "Let" and text.lstrip().startswith("let "):
+            r = {"k": "Local", "pat": r["pat"], "init": r["e"]}
         _pcache[text] = r
     return _pcache[text]
 
@@ -45,7 +49,7 @@ def norm_path(p):
     return p
 
 
-SKIP_KEYS = {"line", "mline", "end_line", "shorthand", "turbofish", "generics", "semi", "raw", "parsed", "delim", "move"}
+SKIP_KEYS = {"line", "mline", "end_line", "shorthand", "turbofish", "generics", "semi", "raw", "parsed", "delim", "move", "mut", "by_ref", "ty"}
 
 
 def match(pat, node, binds, env=None, depth=0):
